@@ -61,6 +61,14 @@ def run(tier, seed):
     between = [x for x in hdr if any(h[0] in ("frag2i", "frag3i") and j + 1 < len(x["hist"]) and x["hist"][j + 1][0].startswith("junk") for j, h in enumerate(x["hist"]))]
     for s in (between if thorough else rng.sample(between, min(len(between), 10))):
         scen.append({**s, "cut": 0, "via_read_half": False})
+    # headers that list as many atoms as a header can (254 / 255 new entries, then the same message referring to them): Gen_RecvMany
+    mp = os.path.join(lib.outdir(PID), "many.ndjson")
+    rm = lib.tlc("gen/Gen_RecvMany.tla", "gen/Gen_RecvMany.cfg", PID, "gen_many", workers=1, env={"OUT": mp})
+    if rm.rc != 0:
+        raise lib.ToolError("Gen_RecvMany failed")
+    for s in lib.read_ndjson(mp):
+        for cut in (0, 13):
+            scen.append({**s, "cut": cut, "via_read_half": False})
     # the node's own read loop (pass-through frames only)
     for s in pick(pt)[: (200 if thorough else 30)]:
         scen.append({**s, "cut": rng.choice([0, 3]), "via_read_half": True})
